@@ -4,7 +4,7 @@
 # queue shared by the given scratch worktrees of /repo. One line per patch in <outfile>.
 out=$1; shift
 cd /verif
-declare -A extra=( [C11-A]="C18" [C20-C]="C15" [C01-E]="C02" [C01-F]="C07" )
+declare -A extra=( [C11-A]="C18" [C20-C]="C15" [C01-E]="C02" [C01-F]="C07" [C02-I]="C04" [C03-I]="C12" [C09-I]="C14" [C14-I]="C12" [C18-I]="C04" )
 jobs=$(mktemp)
 for d in seeded/*/; do s=$(basename $d); p=${s:0:3}; echo "S /verif/seeded/$s/patch.diff $p ${extra[$s]}" >> $jobs; done
 for f in benign/*/*.diff; do echo "B /verif/$f" >> $jobs; done
